@@ -4,7 +4,7 @@
    Model/Icmp6SpoofKnown.v (what "exactly" means field by field; recorded classes).
    Spec: Spec/RFC4861.v (independent RA decoder). *)
 From PV Require Import Base.Prelude Base.Text Model.Icmp6SpoofRA Model.Icmp6Spoof Spec.RFC4861 Model.Icmp6SpoofKnown
-  Proofs.Icmp6SpoofRA Proofs.Icmp6Spoof.
+  Proofs.Icmp6SpoofRA Proofs.Icmp6SpoofDnssl Proofs.Icmp6Spoof.
 Open Scope N_scope.
 
 (* ------------------------------------------------------------------ *)
@@ -171,18 +171,26 @@ Print Assumptions C14_options_unsplittable.
 (* (b) it can be split: the library computes exactly the LENIENT reference decoder
        (Spec/RFC4861.v): a link-layer address option of length <> 1 or a prefix option of length <> 4
        or prefix length > 128 rejects the advertisement; every other malformed known option (MTU,
-       route information incl. the reserved preference, RDNSS) is skipped without a trace.
-       Partial: DNSSL options are assumed well formed (their malformed variants are compared with
-       the implementation by the correspondence run only). *)
-Theorem C14_options_lenient_partial : forall p tl,
+       route information incl. the reserved preference, RDNSS, DNSSL with a malformed or empty name
+       list) is skipped without a trace. *)
+Theorem C14_options_lenient : forall p tl,
   bytes_ok p -> (16 <= List.length p)%nat ->
-  split_tlv (List.length (skipn 16 p)) (skipn 16 p) = Some tl -> dnssl_wf tl ->
+  split_tlv (List.length (skipn 16 p)) (skipn 16 p) = Some tl ->
   ra_options p = match ra_decode_lenient p with
                  | Some d => Ok (fold_left apply1 (ra_opts d) opts_zero)
                  | None => Err EOther
                  end.
-Proof. exact ra_options_lenient. Qed.
-Print Assumptions C14_options_lenient_partial.
+Proof. exact ra_options_lenient_full. Qed.
+Print Assumptions C14_options_lenient.
+
+(* (a) + (b): for EVERY byte string of at least 16 bytes, Options() is the lenient reference decoder *)
+Theorem C14_options_total : forall p, bytes_ok p -> (16 <= List.length p)%nat ->
+  ra_options p = match ra_decode_lenient p with
+                 | Some d => Ok (fold_left apply1 (ra_opts d) opts_zero)
+                 | None => Err EOther
+                 end.
+Proof. exact ra_options_total. Qed.
+Print Assumptions C14_options_total.
 
 Theorem C14_lenient_extends_strict : forall p d, ra_decode p = Some d -> ra_decode_lenient p = Some d.
 Proof. exact ra_decode_lenient_extends. Qed.
